@@ -244,6 +244,22 @@ def _impl(tier, seed, search):
     Ra = b.angvec2r(abs(ar), vv)
     close('tr2angvec', lambda: b.tr2angvec(Ra, unit='deg')[0], lambda: b.tr2angvec(Ra)[0] * 180 / math.pi, 1e-9, 180.0)
     close('SO3.angvec', lambda: SO3(Ra).angvec(unit='deg')[0], lambda: SO3(Ra).angvec()[0] * 180 / math.pi, 1e-9, 180.0)
+    # the accessors of every class that has them, and the constructors given several triples at once (N x 3, list of triples)
+    close('SE3.angvec', lambda: SE3(b.r2t(Ra)).angvec(unit='deg')[0], lambda: SE3(b.r2t(Ra)).angvec()[0] * 180 / math.pi, 1e-9, 180.0)
+    close('UQ.angvec', lambda: UnitQuaternion(SO3(Ra)).angvec(unit='deg')[0], lambda: UnitQuaternion(SO3(Ra)).angvec()[0] * 180 / math.pi, 1e-9, 180.0)
+    close('UQ.angvec=SO3.angvec', lambda: UnitQuaternion(SO3(Ra)).angvec(unit='deg')[0], lambda: SO3(Ra).angvec(unit='deg')[0], 1e-9, 180.0)
+    close('SE3.eul', lambda: SE3(b.r2t(Re)).eul(unit='deg'), lambda: SE3(b.r2t(Re)).eul() * 180 / math.pi, 1e-9, 180.0); close('UQ.eul', lambda: UnitQuaternion(SO3(Re)).eul(unit='deg'), lambda: UnitQuaternion(SO3(Re)).eul() * 180 / math.pi, 1e-9, 180.0)
+    stack_ = lambda X_: np.array([np.asarray(x_, float) for x_ in X_.data])
+    a23 = np.array([a3, [a3[2] / 2, -a3[0], a3[1] / 3]]); a23r = np.radians(a23)
+    for nm_, ctor_ in (('SO3.Eul', SO3.Eul), ('SE3.Eul', SE3.Eul), ('UQ.Eul', UnitQuaternion.Eul), ('SO3.RPY', SO3.RPY), ('SE3.RPY', SE3.RPY), ('UQ.RPY', UnitQuaternion.RPY)):
+        for fm_, mk_ in (('Nx3', lambda x_: np.array(x_)), ('list of lists', lambda x_: [list(r_) for r_ in x_]), ('list of arrays', lambda x_: [np.array(r_) for r_ in x_])):
+            if nm_.startswith('UQ'): continue       # (the quaternion constructors take one triple)
+            close(f'{nm_}({fm_})', lambda: stack_(ctor_(mk_(a23), unit='deg')), lambda: stack_(ctor_(mk_(a23r))))
+            la_ = f'{nm_}({fm_}, unknown unit)'
+            L.count('unknown-unit', key=la_)
+            try:
+                ctor_(mk_(a23), unit='degrees'); L.fail(f'unknown-option:{la_}', f"{la_}: unit='degrees' must be rejected with an exception", dict(callable=la_))
+            except Exception: pass
     close('SO2(theta)', lambda: SO2(a, unit='deg'), lambda: SO2(ar)); close('SE2(x,y,theta)', lambda: SE2(x, y, a, unit='deg'), lambda: SE2(x, y, ar))
     close('SO2.theta', lambda: SO2(ar).theta(unit='deg'), lambda: SO2(ar).theta() * 180 / math.pi, 1e-9, 180.0)
     T2u = b.xyt2tr([x, y, ar])
